@@ -352,3 +352,21 @@ func wellFormed(s *Spec) bool {
 	}
 	return true
 }
+
+// stripReq removes every required-feature set. Applied to erase(S,F) it gives the reduced schema as a
+// plain schema without any feature machinery: under all features every remaining requirement holds,
+// so this is the same schema — but the reference no longer depends on the library's feature tests
+// or on the plumbing of the request's feature set.
+func stripReq(s *Spec) *Spec {
+	out := s.clone()
+	for i := range out.Types {
+		out.Types[i].Req = nil
+		for j := range out.Types[i].Fields {
+			out.Types[i].Fields[j].Req = nil
+		}
+	}
+	for i := range out.Orphans {
+		out.Orphans[i].Req = nil
+	}
+	return out
+}
